@@ -793,6 +793,10 @@ struct Runner : IRunner {
         }
         DefRec& dr = it->second;
         o_ptr = classify(*s, (std::uintptr_t)dr.next_slot);
+        if (!dr.next_slot) {
+            o_called = -95; // never set: nothing to call through
+            return;
+        }
         std::vector<Obj*> o;
         for (int c : dr.vp) {
             o.push_back(make_obj(c, 0));
@@ -1140,6 +1144,7 @@ struct Runner : IRunner {
         } encoded;
         std::uintptr_t* vtbls;
         std::uintptr_t* dtbls;
+        std::uint16_t* nexts; // one word per definition: what its next is (present in the emitted text since the repair of D12)
     };
     static bool find_size(const std::string& text, const char* key, std::size_t from, long& value, std::size_t& after) {
         auto p = text.find(key, from);
@@ -1190,7 +1195,10 @@ struct Runner : IRunner {
             bool ok = find_size(text, "uint16_t headroom[", 0, H, at) && find_size(text, "uint16_t slots[", at, S, at) &&
                       find_size(text, "uint16_t vtbls[", at, E, at) && find_size(text, "std::uintptr_t vtbls[", at, D, at) &&
                       find_size(text, "std::uintptr_t dtbls[", at, T, at);
-            std::vector<unsigned long> ws, wv, wt;
+            std::vector<unsigned long> ws, wv, wt, wn;
+            long N = 0;
+            std::size_t at2 = at;
+            bool has_nexts = find_size(text, "uint16_t nexts[", at, N, at2);
             auto init = text.find("yomm2_dispatch_data = {");
             if (ok && init != std::string::npos) {
                 auto a = text.find("{}, {", init);
@@ -1202,14 +1210,20 @@ struct Runner : IRunner {
                 } else {
                     ws = words(text.substr(a + 5, b - a - 5));
                     wv = words(text.substr(b + 4, c - b - 4));
-                    wt = words(text.substr(c + 8, d - c - 8));
+                    auto e = has_nexts ? text.find("}, {", c + 8) : std::string::npos;
+                    if (e != std::string::npos && e < d) {
+                        wt = words(text.substr(c + 8, e - c - 8));
+                        wn = words(text.substr(e + 4, d - e - 4));
+                    } else {
+                        wt = words(text.substr(c + 8, d - c - 8));
+                    }
                 }
             } else {
                 ok = false;
             }
             const long LIM = 1 << 22;
             bool ill = !ok || H < 0 || S < 0 || E < 0 || D < 0 || T < 0 || H > LIM || S > LIM || E > LIM || D > LIM || T > LIM ||
-                       (long)ws.size() > S || (long)wv.size() > E || (long)wt.size() > T;
+                       (long)ws.size() > S || (long)wv.size() > E || (long)wt.size() > T || N < 0 || N > LIM || (long)wn.size() > N;
             std::set<int> live;
             for (auto& [rr, cr] : recs) {
                 live.insert(cr.c);
@@ -1232,6 +1246,8 @@ struct Runner : IRunner {
             blk->encoded.vtbls = reinterpret_cast<std::uint16_t*>(ubuf + 2 * (H + S));
             blk->vtbls = reinterpret_cast<std::uintptr_t*>(ubuf);
             blk->dtbls = dt;
+            blk->nexts = static_cast<std::uint16_t*>(std::calloc(N ? N : 1, 2));
+            for (std::size_t i = 0; i < wn.size(); ++i) blk->nexts[i] = (std::uint16_t)wn[i];
             for (std::size_t i = 0; i < ws.size(); ++i) blk->encoded.slots[i] = (std::uint16_t)ws[i];
             for (std::size_t i = 0; i < wv.size(); ++i) blk->encoded.vtbls[i] = (std::uint16_t)wv[i];
             for (std::size_t i = 0; i < wt.size(); ++i) dt[i] = wt[i];
@@ -1243,6 +1259,9 @@ struct Runner : IRunner {
                 if (sl.declared) {
                     std::fill_n(sl.info->slots_strides_ptr, 2 * sl.arity - 1, 0);
                 }
+            }
+            for (auto& [key, dr] : defs) {
+                dr.next_slot = nullptr;   // a process in which update never ran has no next pointers either
             }
             std::vector<std::uintptr_t>().swap(P::dispatch_data);
             if constexpr (P::template has_facet<policy::external_vptr>) {
